@@ -96,21 +96,23 @@ Example C09_example_run :
 Proof. vm_compute. repeat split; reflexivity. Qed.
 
 (* ==== the group universe (GroupedUniverse.v): per chromosome the grouper registers the answer of every get_group_id call; the set goes into
-        <raw>_<chr>_groups (read back through str.strip() on --resume); the parent takes the union over the chromosomes, writes it into <raw>_info,
-        load_read_info reads it back and the counters are built with it (ordered_groups = sorted, ids = positions).  Sets are duplicate-free lists and
-        every enumeration of a set (file lines, list(set)) is a parameter: the theorems hold for every enumeration order. *)
+        <raw>_<chr>_groups, one name per line (read back on --resume with only the line terminator removed - commit 40e2502; str.strip() before, kept
+        as the ..._unrepaired definitions); the parent takes the union over the chromosomes, writes it into <raw>_info, load_read_info reads it back
+        and the counters are built with it (ordered_groups = sorted, ids = positions).  Sets are duplicate-free lists and every enumeration of a set
+        (file lines, list(set)) is a parameter: the theorems hold for every enumeration order. *)
 From IQ Require Import GroupedUniverse GroupedTable.
 
 (* every group a processed read carries is in the universe the counters are built with, for every distribution of the reads over the chromosomes,
-   every order of the chromosomes and every enumeration order; on --resume for group names without white space at their ends *)
+   every order of the chromosomes and every enumeration order; on --resume for names that contain no line terminator ("\n" / "\r": the group file has
+   one name per line) - white space at the ends of a name is kept *)
 Theorem C09_universe_complete : forall resume enum_file enum_info chrs, enumeration enum_file -> enumeration enum_info ->
-  (resume = true -> forall answers g, In answers chrs -> In g answers -> strip g = g) ->
+  (resume = true -> forall answers g, In answers chrs -> In g answers -> no_newline g = true) ->
   forall answers g, In answers chrs -> In g answers -> In g (universe resume enum_file enum_info chrs).
 Proof. exact universe_complete. Qed.
 Print Assumptions C09_universe_complete.
 (* ... so group_numeric_ids[g] is defined and ordered_groups[id] is g again *)
 Theorem C09_universe_ids_defined : forall resume enum_file enum_info chrs, enumeration enum_file -> enumeration enum_info ->
-  (resume = true -> forall answers g, In answers chrs -> In g answers -> strip g = g) ->
+  (resume = true -> forall answers g, In answers chrs -> In g answers -> no_newline g = true) ->
   forall answers g, In answers chrs -> In g answers ->
   let ordered := counter_ordered (universe resume enum_file enum_info chrs) in
   exists i, index_of g ordered = Some i /\ nth i ordered [] = g.
@@ -124,7 +126,7 @@ Print Assumptions C09_universe_group_known.
    duplicates) - but that alignment's read may have been dropped later, or count for other features only: then the code prints the group's column in
    every matrix row with the value 0 and no linear row (C09_linear_eq_matrix), which the property allows *)
 Theorem C09_universe_sound : forall resume enum_file enum_info chrs, enumeration enum_file -> enumeration enum_info ->
-  (resume = true -> forall answers g, In answers chrs -> In g answers -> strip g = g) ->
+  (resume = true -> forall answers g, In answers chrs -> In g answers -> no_newline g = true) ->
   (forall g, In g (universe resume enum_file enum_info chrs) -> exists answers, In answers chrs /\ In g answers) /\
   NoDup (universe resume enum_file enum_info chrs).
 Proof. intros. split; [apply universe_sound; assumption|apply universe_NoDup]. Qed.
@@ -132,17 +134,29 @@ Print Assumptions C09_universe_sound.
 Theorem C09_unused_group_zero_cell : forall s lv evs f g, (forall ev, In ev evs -> ev_group ev <> Some g) -> (spec_cell s lv evs f (Some g) == 0)%Q.
 Proof. exact unused_group_zero_cell. Qed.
 Print Assumptions C09_unused_group_zero_cell.
-(* the proviso of the resume path is needed: a group " g1" is read back as "g1" while the reads carry " g1" (group_numeric_ids then raises KeyError) *)
+(* the code before the repair (universe_unrepaired: read-back through str.strip()) needed names without white space at their ends as well ... *)
+Theorem C09_universe_complete_unrepaired : forall resume enum_file enum_info chrs, enumeration enum_file -> enumeration enum_info ->
+  (resume = true -> forall answers g, In answers chrs -> In g answers -> no_newline g = true /\ strip g = g) ->
+  forall answers g, In answers chrs -> In g answers -> In g (universe_unrepaired resume enum_file enum_info chrs).
+Proof. exact universe_complete_unrepaired. Qed.
+Print Assumptions C09_universe_complete_unrepaired.
+(* ... and lost " g1": read back as "g1" while the reads carry " g1" (group_numeric_ids then raises KeyError); the repaired read-back keeps it *)
 Example C09_universe_complete_resume_padded_refuted :
   let g := [32; 103; 49] in
-  universe true (fun l => l) (fun l => l) [[g]] = [[103; 49]] /\ mem_str g (universe true (fun l => l) (fun l => l) [[g]]) = false /\
-  universe false (fun l => l) (fun l => l) [[g]] = [g].
+  universe_unrepaired true (fun l => l) (fun l => l) [[g]] = [[103; 49]] /\ mem_str g (universe_unrepaired true (fun l => l) (fun l => l) [[g]]) = false /\
+  universe true (fun l => l) (fun l => l) [[g]] = [g] /\ universe_unrepaired false (fun l => l) (fun l => l) [[g]] = [g].
 Proof. exact universe_complete_resume_padded_refuted. Qed.
+(* what remains after the repair: a name that contains a line terminator is cut into two lines of the group file *)
+Example C09_universe_complete_resume_newline_refuted :
+  let g := [97; 10; 98] in
+  universe true (fun l => l) (fun l => l) [[g]] = [[97]; [98]] /\ mem_str g (universe true (fun l => l) (fun l => l) [[g]]) = false.
+Proof. exact universe_complete_resume_newline_refuted. Qed.
 
-(* ==== the table grouper end to end (GroupedTable.v): option string, split_read_group_table, the fixed layout of the split files, ReadTableGrouper *)
+(* ==== the table grouper end to end (GroupedTable.v): option string, split_read_group_table, the fixed layout of the split files (read without comment
+        skipping - commit 614fc16; with it before, kept as table_group_split_unrepaired), ReadTableGrouper *)
 (* a read of the chromosome that is listed in the table gets exactly the group of its (last) row, whatever column layout and delimiter the command
-   line gives for the table; hypotheses: the reads of the chromosome have SAM-clean names that do not start with '#', the groups of the listed ones
-   are non-empty, contain no TAB and do not end in white space *)
+   line gives for the table; hypotheses: the reads of the chromosome have SAM-clean names (non-empty, no white space; they MAY start with '#'), the
+   groups of the listed ones are non-empty, contain no TAB and do not end in white space *)
 Theorem C09_table_group_is_the_row_entry : forall rc gc delim lines reads,
   (forall n, In n reads -> clean_name n = true) ->
   (forall n g, In n reads -> lookup_last (load_table rc gc delim lines) n = Some g -> safe_group g = true) ->
@@ -161,18 +175,26 @@ Theorem C09_split_preserves_rows : forall rc gc delim lines reads,
   (forall l, In l (split_file rc gc delim lines reads) -> exists n g, l = n ++ [9] ++ g /\ In n reads /\ lookup_last (load_table rc gc delim lines) n = Some g).
 Proof. intros. split; [intros n g; apply split_preserves_rows|apply split_rows_are_table_rows]. Qed.
 Print Assumptions C09_split_preserves_rows.
+(* the code before the repair: additionally no read id of the chromosome starts with '#' ... *)
+Theorem C09_table_group_is_the_row_entry_unrepaired : forall rc gc delim lines reads,
+  (forall n, In n reads -> clean_name_unrepaired n = true) ->
+  (forall n g, In n reads -> lookup_last (load_table rc gc delim lines) n = Some g -> safe_group g = true) ->
+  forall name g, In name reads -> lookup_last (load_table rc gc delim lines) name = Some g -> table_group_split_unrepaired rc gc delim lines reads name = g.
+Proof. exact table_group_is_the_row_entry_unrepaired. Qed.
+Print Assumptions C09_table_group_is_the_row_entry_unrepaired.
+(* ... and a read id that starts with '#' listed in a table whose read column is not the first was skipped as a comment of the split file *)
+Example C09_table_group_hash_read_id_refuted :
+  let lines := [[103; 49; 9; 35; 114]] in
+  lookup_last (load_table 1 0 [9] lines) [35; 114] = Some [103; 49] /\ table_group_split_unrepaired 1 0 [9] lines [[35; 114]] [35; 114] = NA /\
+  table_group_split 1 0 [9] lines [[35; 114]] [35; 114] = [103; 49].
+Proof. exact table_group_hash_read_id_refuted. Qed.
 (* reading the split file with the layout of the command line instead of (0, 1, TAB) loses the read *)
 Example C09_table_group_user_layout_refuted :
   let lines := [[103; 49; 9; 114; 49]] in
   lookup_last (load_table 1 0 [9] lines) [114; 49] = Some [103; 49] /\ split_file 1 0 [9] lines [[114; 49]] = [[114; 49; 9; 103; 49]] /\
   table_group_split 1 0 [9] lines [[114; 49]] [114; 49] = [103; 49] /\ table_group_split_user_layout 1 0 [9] lines [[114; 49]] [114; 49] = NA.
 Proof. exact table_group_user_layout_refuted. Qed.
-(* the hypotheses are needed: a read id that starts with '#' listed in a table whose read column is not the first is skipped as a comment of the split file;
-   a group that ends in white space is trimmed *)
-Example C09_table_group_hash_read_id_refuted :
-  let lines := [[103; 49; 9; 35; 114]] in
-  lookup_last (load_table 1 0 [9] lines) [35; 114] = Some [103; 49] /\ table_group_split 1 0 [9] lines [[35; 114]] [35; 114] = NA.
-Proof. exact table_group_hash_read_id_refuted. Qed.
+(* the hypothesis on the groups is needed: a group that ends in white space is trimmed *)
 Example C09_table_group_padded_group_refuted :
   let lines := [[114; 49; 44; 103; 49; 32; 44; 120]] in
   lookup_last (load_table 0 1 [44] lines) [114; 49] = Some [103; 49; 32] /\ table_group_split 0 1 [44] lines [[114; 49]] [114; 49] = [103; 49].
